@@ -310,13 +310,13 @@ theorem closed {T : Table} (hT : TableN T) :
       (fun n h => absurd h (hn n)) hf.args hf.extra hcna
     exact hf.withSt st' this.1 this.2
   dry := by
-    intro f ld v st' pl hf hcna
+    intro f ld n st' pl hf hcna
     -- nothing is stored when `add` is off
     have hsame : st'.arguments = f.st.arguments ∧ st'.extraArgs = f.st.extraArgs := by
-      obtain ⟨_, hc⟩ := Safe.checkNextArg_cases f.d ld f.st .test v false true st' pl hcna
+      obtain ⟨_, hc⟩ := Safe.checkNextArg_cases f.d ld f.st .test (.test n) false true st' pl hcna
       rcases hc with ⟨c, e, _, _, hst, _⟩ | ⟨_, hscan⟩
       · subst hst; exact ⟨rfl, by simp [setArg]⟩
-      · rcases Safe.scan_cases f.d.name ld true false .test v f.st _ _ st' pl hscan with ⟨h1, _, _⟩ | ⟨pre, a, post, _, _, hit⟩
+      · rcases Safe.scan_cases f.d.name ld true false .test (.test n) f.st _ _ st' pl hscan with ⟨h1, _, _⟩ | ⟨pre, a, post, _, _, hit⟩
         · subst h1; exact ⟨rfl, rfl⟩
         · cases hit with
           | testlistAdd hr ht htt hadd args happ hst hpl => cases hadd
